@@ -1,3 +1,206 @@
+//! C13 (writer faults) and C14 (reader fragmentation and failure).
+
 use super::*;
-pub fn c13(_ctx: &Ctx, _subj: &dyn DynSubject, _ty: &Ty, _rep: &mut Report) {}
-pub fn c14(_ctx: &Ctx, _subj: &dyn DynSubject, _ty: &Ty, _rep: &mut Report) {}
+use crate::faults::{FaultyReader, FaultyWriter, ReadSchedule, WriteSchedule};
+use std::io::{self, BufWriter, Write};
+use vmodel::val::GenCfg;
+
+fn ks(len: usize, ent: &mut Ent, boundaries: &[usize], budget: usize) -> Vec<usize> {
+    if len <= budget {
+        return (0..len).collect();
+    }
+    let mut c: Vec<usize> = vec![0, 1, 28, 29, len - 1, len - 2];
+    for b in boundaries {
+        c.extend([b.saturating_sub(1), *b, b + 1]);
+    }
+    while c.len() < budget {
+        c.push(ent.pick(len));
+    }
+    c.retain(|k| *k < len);
+    c.sort();
+    c.dedup();
+    c
+}
+
+pub fn c13(ctx: &Ctx, subj: &dyn DynSubject, ty: &Ty, rep: &mut Report) {
+    let strat = with_entropy(strategy_for(ctx, ty, GenCfg { max_len: 5, long: false }), 64);
+    let budget = if ctx.tier == Tier::Thorough { 600 } else { 160 };
+    crate::runner::run_cases(ctx, subj, rep, strat, ctx.cases, &|case, log| {
+        let (v, ent) = split_entropy(case);
+        let mut ent = Ent::new(ent);
+        self_check(subj, v)?;
+        let (bytes, _) = ser_bytes(subj, v)?;
+        let enc = model_enc(ctx, subj, ty, v)?;
+        let len = bytes.len();
+        log.sample = Some(sample_json(subj, v, Some(&bytes), json!({"schedules": "fail@k, Ok(0)@k, flush failure, split, interrupted; plain and BufWriter sinks"})));
+        let run = |sched: WriteSchedule, buffered: Option<usize>| -> Result<(Result<usize, String>, Vec<u8>, crate::SrcReport), Fail> {
+            let mut fw = FaultyWriter::new(sched.clone(), len + 64);
+            let out = if let Some(cap) = buffered {
+                let mut bw = BufWriter::with_capacity(cap, &mut fw);
+                let r = guard(|| subj.ser_src_check(v, &mut bw));
+                // dropping the BufWriter may try to flush again; keep that outside the measured call
+                let _ = guard(|| drop(bw));
+                r
+            } else {
+                guard(|| subj.ser_src_check(v, &mut fw))
+            };
+            match out {
+                Err(p) => Err(Fail::new(&format!("write-fault-panic:{}", panic_class(&p)), format!("serialization panicked under {:?}: {}", sched, p)).env(json!({"schedule": format!("{:?}", sched), "buffered": buffered}))),
+                Ok((r, src)) => Ok((r.map_err(|e| format!("{:?}", e)), fw.accepted, src)),
+            }
+        };
+        let check_src = |src: &crate::SrcReport, what: &str| -> Result<(), Fail> {
+            if src.foreign_frees > 0 {
+                return Err(Fail::new("write-fault-frees-source", format!("{}: serialization freed {} allocation(s) that existed before the call", what, src.foreign_frees)).env(json!({"schedule": what})));
+            }
+            if !src.intact {
+                return Err(Fail::new("write-fault-damages-source", format!("{}: the value being serialized changed", what)).env(json!({"schedule": what})));
+            }
+            Ok(())
+        };
+        // failing schedules
+        let cuts = ks(len, &mut ent, &enc.boundaries, budget);
+        log.nontrivial = cuts.iter().any(|k| *k > 0);
+        for &k in &cuts {
+            for (si, sched) in [WriteSchedule::FailAt { k, kind: io::ErrorKind::Other }, WriteSchedule::ZeroAt { k }].into_iter().enumerate() {
+                if si == 1 && k % 3 != 0 {
+                    continue;
+                }
+                let buffered = match (k + si) % 3 {
+                    0 => None,
+                    1 => Some(7),
+                    _ => Some(64),
+                };
+                let what = format!("{:?} (buffered: {:?})", sched, buffered);
+                let (r, acc, src) = run(sched, buffered)?;
+                log.extra_evals += 1;
+                if k > 0 {
+                    log.extra_nontrivial.push(hash_sub(subj.name(), v, "c13", k as u64, si as u64 * 4 + buffered.map_or(0, |c| c as u64)));
+                }
+                match r {
+                    Err(e) if e == "WriteError" => {}
+                    Err(e) => return Err(Fail::new("write-fault-wrong-error", format!("{}: returned {} instead of WriteError", what, e)).env(json!({"schedule": what}))),
+                    Ok(n) => return Err(Fail::new("write-fault-success", format!("{}: serialization reported success ({} bytes) although the writer failed", what, n)).env(json!({"schedule": what}))),
+                }
+                if acc.len() > k || !prefix_masked(&enc, &acc, &bytes) {
+                    return Err(Fail::new("write-fault-not-prefix", format!("{}: the {} bytes accepted by the writer are not a prefix of the fault-free stream", what, acc.len())).env(json!({"schedule": what})));
+                }
+                check_src(&src, &what)?;
+            }
+        }
+        // flush failure
+        for buffered in [None, Some(16)] {
+            let (r, acc, src) = run(WriteSchedule::FlushFails, buffered)?;
+            log.extra_evals += 1;
+            let what = format!("flush failure (buffered: {:?})", buffered);
+            match r {
+                Err(e) if e == "WriteError" => {}
+                other => return Err(Fail::new("flush-fault-not-reported", format!("{}: result is {:?} instead of Err(WriteError)", what, other)).env(json!({"schedule": what}))),
+            }
+            if !prefix_masked(&enc, &acc, &bytes) {
+                return Err(Fail::new("write-fault-not-prefix", format!("{}: accepted bytes are not a prefix", what)).env(json!({"schedule": what})));
+            }
+            check_src(&src, &what)?;
+        }
+        // benign schedules: split and interrupted writes must deliver exactly the stream
+        let rnd: Vec<usize> = (0..8).map(|_| 1 + ent.pick(13)).collect();
+        let benign = vec![
+            WriteSchedule::Clean,
+            WriteSchedule::Split { chunks: vec![1] },
+            WriteSchedule::Split { chunks: vec![2, 3, 5, 7] },
+            WriteSchedule::Split { chunks: rnd.clone() },
+            WriteSchedule::Interrupting { chunks: vec![1], every: 2 },
+            WriteSchedule::Interrupting { chunks: rnd, every: 3 },
+        ];
+        for (i, sched) in benign.into_iter().enumerate() {
+            let buffered = if i % 2 == 1 { Some(5) } else { None };
+            let what = format!("{:?} (buffered: {:?})", sched, buffered);
+            let (r, acc, src) = run(sched, buffered)?;
+            log.extra_evals += 1;
+            log.extra_nontrivial.push(hash_sub(subj.name(), v, "c13-benign", i as u64, 0));
+            match r {
+                Ok(n) if n == len => {}
+                other => return Err(Fail::new("benign-writer-failed", format!("{}: result is {:?}, expected Ok({})", what, other, len)).env(json!({"schedule": what}))),
+            }
+            if !same_masked(&enc, &acc, &bytes) {
+                return Err(Fail::new("benign-writer-bytes", format!("{}: the writer received {} bytes that differ from the fault-free stream ({} bytes)", what, acc.len(), len)).env(json!({"schedule": what})));
+            }
+            check_src(&src, &what)?;
+        }
+        // /dev/full through `store`
+        if subj.index() % 4 == 0 {
+            log.extra_evals += 1;
+            match guard(|| subj.store(v, std::path::Path::new("/dev/full"))) {
+                Ok(Err(epserde::ser::Error::WriteError)) => {}
+                other => return Err(Fail::new("devfull", format!("store to /dev/full: {:?}", other.map(|r| r.map_err(|e| format!("{:?}", e))))).env(json!({"schedule": "/dev/full"}))),
+            }
+        }
+        Ok(())
+    });
+}
+
+pub fn c14(ctx: &Ctx, subj: &dyn DynSubject, ty: &Ty, rep: &mut Report) {
+    let strat = with_entropy(strategy_for(ctx, ty, GenCfg { max_len: 6, long: false }), 64);
+    let budget = if ctx.tier == Tier::Thorough { 800 } else { 200 };
+    crate::runner::run_cases(ctx, subj, rep, strat, ctx.cases, &|case, log| {
+        let (v, ent) = split_entropy(case);
+        let mut ent = Ent::new(ent);
+        self_check(subj, v)?;
+        let s = classify(ctx, ty, v, log);
+        let (bytes, _) = ser_bytes(subj, v)?;
+        let enc = model_enc(ctx, subj, ty, v)?;
+        let len = bytes.len();
+        log.sample = Some(sample_json(subj, v, Some(&bytes), json!({"schedules": "chunked 1 / primes / random, interrupted, fail@k for every k"})));
+        let rnd: Vec<usize> = (0..8).map(|_| 1 + ent.pick(17)).collect();
+        let benign = vec![
+            ReadSchedule::Chunked { chunks: vec![1] },
+            ReadSchedule::Chunked { chunks: vec![2, 3, 5, 7, 11, 13] },
+            ReadSchedule::Chunked { chunks: rnd.clone() },
+            ReadSchedule::Interrupting { chunks: vec![1], every: 2 },
+            ReadSchedule::Interrupting { chunks: rnd, every: 3 },
+        ];
+        log.nontrivial = s.nonempty_seq;
+        for (i, sched) in benign.into_iter().enumerate() {
+            let mut rd = FaultyReader::new(&bytes, sched.clone());
+            log.extra_evals += 1;
+            let (r, foreign) = crate::alloc::protected(|| guard(|| subj.full(&mut rd)));
+            let what = format!("{:?}", sched);
+            match r {
+                Ok(Ok(x)) if x == *v => {}
+                Ok(Ok(x)) => return Err(Fail::new("fragmented-read-value", format!("{}: value differs: {}", what, x.show())).env(json!({"schedule": what}))),
+                Ok(Err(e)) => return Err(Fail::new(&format!("fragmented-read-error:{}", err_name(&e)), format!("{}: {:?}", what, e)).env(json!({"schedule": what}))),
+                Err(p) => return Err(Fail::new(&format!("fragmented-read-panic:{}", panic_class(&p)), format!("{}: panicked: {}", what, p)).env(json!({"schedule": what}))),
+            }
+            if foreign > 0 {
+                return Err(Fail::new("read-frees-foreign", format!("{}: deserialization freed {} allocation(s) it did not make", what, foreign)).env(json!({"schedule": what})));
+            }
+            if rd.pos != len {
+                return Err(Fail::new("fragmented-read-consumed", format!("{}: consumed {} of {} bytes", what, rd.pos, len)).env(json!({"schedule": what})));
+            }
+            let _ = i;
+        }
+        for k in ks(len, &mut ent, &enc.boundaries, budget) {
+            let kind = if k % 2 == 0 { io::ErrorKind::Other } else { io::ErrorKind::UnexpectedEof };
+            let mut rd = FaultyReader::new(&bytes, ReadSchedule::FailAt { k, kind });
+            log.extra_evals += 1;
+            if k >= enc.header_len {
+                log.nontrivial = true;
+                log.extra_nontrivial.push(hash_sub(subj.name(), v, "c14", k as u64, 0));
+            }
+            let (r, foreign) = crate::alloc::protected(|| guard(|| subj.full(&mut rd)));
+            match r {
+                Ok(Err(deser::Error::ReadError)) => {}
+                Ok(Err(e)) => return Err(Fail::new(&format!("read-fault-error:{}", err_name(&e)), format!("reader failing after {} bytes: {:?} instead of ReadError", k, e)).env(json!({"k": k}))),
+                Ok(Ok(x)) => return Err(Fail::new("read-fault-value", format!("reader failing after {} of {} bytes, yet a value was returned: {}", k, len, x.show())).env(json!({"k": k}))),
+                Err(p) => return Err(Fail::new(&format!("read-fault-panic:{}", panic_class(&p)), format!("reader failing after {} bytes: panicked: {}", k, p)).env(json!({"k": k}))),
+            }
+            if foreign > 0 {
+                return Err(Fail::new("read-frees-foreign", format!("reader failing after {} bytes: {} foreign frees", k, foreign)).env(json!({"k": k})));
+            }
+        }
+        Ok(())
+    });
+}
+
+#[allow(dead_code)]
+fn _w(_: &mut dyn Write) {}
